@@ -82,7 +82,7 @@ Definition dynamic (b : attr) : Prop := exists cmd, a_name b = pfx ++ cmd /\ is_
    av), x (:text) and the dynamic attributes das (possibly none) *)
 Definition composed (n : node) (tok : token) (w c r x : attr) (av : str) (das : list attr) : Prop :=
   n_tok n = Some tok /\ t_kind tok = KTag /\
-  str_eqb (map to_lower (t_name tok)) (m_tag_prefix mgr ++ d_block) = false /\
+  str_eqb (block_key to_lower (t_name tok)) (m_tag_prefix mgr ++ d_block) = false /\
   a_name w = pfx ++ d_with /\ a_name c = pfx ++ d_if /\ a_name r = pfx ++ d_range /\ a_name x = pfx ++ d_text /\
   a_value c <> None /\ a_value r = Some av /\
   Forall dynamic das /\
@@ -97,7 +97,7 @@ Variable av : str.
 Variable das : list attr.
 Hypothesis Htok : n_tok n = Some tok.
 Hypothesis Hkind : t_kind tok = KTag.
-Hypothesis Hblk : str_eqb (map to_lower (t_name tok)) (m_tag_prefix mgr ++ d_block) = false.
+Hypothesis Hblk : str_eqb (block_key to_lower (t_name tok)) (m_tag_prefix mgr ++ d_block) = false.
 Hypothesis Hw : a_name w = pfx ++ d_with.
 Hypothesis Hc : a_name c = pfx ++ d_if.
 Hypothesis Hr : a_name r = pfx ++ d_range.
